@@ -119,6 +119,7 @@ func runC10(c *fw.Case) {
 	c.Count("updates_rejected", int64(r.updatesReject))
 	c.Count("txs", int64(r.txCount))
 	c.Count("real_gov_proposals_submitted", int64(r.proposals))
+	c.Count("grants_to_module_and_fresh_addresses", int64(r.grants))
 	c.Count("blocks_with_burn", int64(r.burnBlocks))
 	if imported {
 		c.Count("export_import_done", 1)
